@@ -6,6 +6,8 @@ package props
 
 func init() {
 	mutants["C01"] = []Mutant{
+		{Name: "put256-limbs-swapped", File: "proto/int256.go", Old: "\tbinary.LittleEndian.PutUint64(b[128/8:192/8], v.High.Low)\n\tbinary.LittleEndian.PutUint64(b[64/8:128/8], v.Low.High)", New: "\tbinary.LittleEndian.PutUint64(b[128/8:192/8], v.Low.High)\n\tbinary.LittleEndian.PutUint64(b[64/8:128/8], v.High.Low)", Rule: "C01.endian", Construct: "proto.binPutUInt256"},
+		{Name: "named-decodestate-pointer-receiver", File: "proto/col_tuple.go", Old: "func (c ColNamed[T]) DecodeState(r *Reader) error {", New: "func (c *ColNamed[T]) DecodeState(r *Reader) error {", Rule: "C01.stateset", Construct: "ColNamed"},
 		{Name: "nullable-row-polarity", File: "proto/col_nullable.go", Old: "Set:   c.Nulls.Row(i) == boolFalse,", New: "Set:   c.Nulls.Row(i) == boolTrue,", Rule: "C01.nullflag", Construct: "ColNullable"},
 		{Name: "clientinfo-swap-whole-buffer", File: "proto/client_info.go", Old: "bswap.Swap64(b.Buf[start:]) // https://github.com/ClickHouse/ClickHouse/issues/34369\n\t\t\t}\n\t\t\t{\n\t\t\t\tv := c.Span.SpanID()", New: "bswap.Swap64(b.Buf[start-start:]) // https://github.com/ClickHouse/ClickHouse/issues/34369\n\t\t\t}\n\t\t\t{\n\t\t\t\tv := c.Span.SpanID()", Rule: "C01.append", Construct: "ClientInfo"},
 		{Name: "str-truncates-buffer", File: "proto/col_str.go", Old: "func (c ColStr) EncodeColumn(b *Buffer) {\n", New: "func (c ColStr) EncodeColumn(b *Buffer) {\n\tb.Buf = b.Buf[:0]\n", Rule: "C01.append", Construct: "ColStr"},
@@ -25,6 +27,9 @@ func init() {
 		{Name: "writer-datasize-offset", File: "compress/writer.go", Old: "binary.LittleEndian.PutUint32(w.Data[hDataSize:], uint32(len(buf)))", New: "binary.LittleEndian.PutUint32(w.Data[hDataSize-1:], uint32(len(buf)))", Rule: "C02.frame", Construct: "layout"},
 	}
 	mutants["C03"] = []Mutant{
+		{Name: "end-ignores-rows", File: "proto/block.go", Old: "\treturn b.Columns == 0 && b.Rows == 0", New: "\treturn b.Columns == 0", Rule: "C03.endmarker", Construct: "Block.End"},
+		{Name: "reset-write-deadline", File: "client.go", Old: "\t\t\t_ = c.conn.SetReadDeadline(time.Time{})", New: "\t\t\t_ = c.conn.SetWriteDeadline(time.Time{})", Rule: "C03.packet-read", Construct: "reset"},
+		{Name: "log-skip-tests-other-callback", File: "query.go", Old: "if ce == nil && q.OnLogs == nil && q.OnLog == nil {", New: "if ce == nil && q.OnLogs == nil && q.OnProfileEvent == nil {", Rule: "C03.delivery", Construct: "OnLog"},
 		{Name: "chain-preallocated-with-length", File: "client.go", Old: "\tfor _, next := range list[1:] {", New: "\tif len(list) > 1 {\n\t\te.Next = make([]Exception, len(list)-1)\n\t}\n\tfor _, next := range list[1:] {", Rule: "C03.exception", Construct: "chain-root"},
 		{Name: "handler-before-end-check", File: "query.go", Old: "\tif block.End() {\n\t\treturn nil\n\t}\n", New: "", Rule: "C03.handler", Construct: "decodeBlock"},
 		{Name: "progress-error-ignored", File: "query.go", Old: "\t\t\tif err := f(ctx, p); err != nil {\n\t\t\t\treturn errors.Wrap(err, \"progress\")\n\t\t\t}", New: "\t\t\t_ = f(ctx, p)", Rule: "C03.callbacks", Construct: "OnProgress"},
@@ -33,6 +38,8 @@ func init() {
 		{Name: "nil-on-unknown", File: "query.go", Old: "\t\t\tcase proto.ServerCodeEndOfStream:\n\t\t\t\treturn nil", New: "\t\t\tcase proto.ServerCodeEndOfStream, proto.ServerCodePong:\n\t\t\t\treturn nil", Rule: "C03.nil", Construct: ""},
 	}
 	mutants["C04"] = []Mutant{
+		{Name: "closed-after-conn-close", File: "client.go", Old: "\tc.closed = true\n\tif err := c.conn.Close(); err != nil {\n\t\treturn errors.Wrap(err, \"conn\")\n\t}\n", New: "\tif err := c.conn.Close(); err != nil {\n\t\treturn errors.Wrap(err, \"conn\")\n\t}\n\tc.closed = true\n", Rule: "C04.close-marks", Construct: "Close"},
+		{Name: "later-deadline-wins", File: "client.go", Old: "(d.Before(deadline) || deadline.IsZero())", New: "(deadline.Before(d) || deadline.IsZero())", Rule: "C04.deadline", Construct: "earlier"},
 		{Name: "ping-without-guard", File: "ping.go", Old: "\tif c.IsClosed() {\n\t\treturn ErrClosed\n\t}\n", New: "", Rule: "C04.guard", Construct: "Ping"},
 		{Name: "flag-for-every-error", File: "query.go", Old: "\t\t\t\t\tif IsException(err) {\n\t\t\t\t\t\t// Prevent query cancellation on exception.\n\t\t\t\t\t\tgotException.Store(true)\n\t\t\t\t\t}", New: "\t\t\t\t\tgotException.Store(true)", Rule: "C04.exception-flag", Construct: ""},
 		{Name: "do-keeps-pending-output", File: "query.go", Old: "\t\tc.writer.Reset()\n\t\treturn err\n\t}\n\treturn nil\n}", New: "\t\treturn err\n\t}\n\treturn nil\n}", Rule: "C04.discard-do", Construct: "Do"},
@@ -41,6 +48,7 @@ func init() {
 		{Name: "watch-ignores-failure-flag", File: "query.go", Old: "if (ctx.Err() != nil || receiveFailed.Load()) && !gotException.Load() {", New: "if ctx.Err() != nil && !gotException.Load() {", Rule: "C04.watch-order", Construct: ""},
 	}
 	mutants["C05"] = []Mutant{
+		{Name: "block-limit-above-documented", File: "compress/compress.go", Old: "\tmaxBlockSize = maxDataSize\n", New: "\tmaxBlockSize = maxDataSize + maxDataSize/255 + 16\n", Rule: "C05.bounds", Construct: "size#1"},
 		{Name: "dst-sized-by-source", File: "compress/writer.go", Old: "\tmaxSize := lz4.CompressBlockBound(len(buf))\n", New: "\tmaxSize := len(buf)\n\tif w.lz4 != nil {\n\t\tmaxSize = lz4.CompressBlockBound(len(buf))\n\t}\n", Rule: "C05.dst", Construct: ""},
 		{Name: "no-datasize-limit", File: "compress/reader.go", Old: "if dataSize < 0 || dataSize > maxDataSize {", New: "if dataSize < 0 {", Rule: "C05.bounds", Construct: ""},
 		{Name: "hash-skips-header", File: "compress/reader.go", Old: "h := city.CH128(r.raw[hMethod:])", New: "h := city.CH128(r.raw[headerSize:])", Rule: "C05.verify", Construct: "region"},
@@ -49,6 +57,8 @@ func init() {
 		{Name: "error-leaves-data", File: "compress/reader.go", Old: "\t\t\tr.data = r.data[:0]\n\t\t\tr.pos = 0\n", New: "", Rule: "C05.state", Construct: "exhausted-on-error"},
 	}
 	mutants["C06"] = []Mutant{
+		{Name: "map-offsets-against-last", File: "proto/col_map.go", Old: "\t\tif offset < prev {\n", New: "\t\tif offset > c.Offsets[rows-1] {\n", Rule: "C06.index", Construct: "offsets/ColMap"},
+		{Name: "elem-unordered-parens", File: "proto/column.go", Old: "\tif start <= 0 || end <= 0 || end < start {\n\t\t// No element.", New: "\tif start <= 0 || end <= 0 {\n\t\t// No element.", Rule: "C06.slices", Construct: "Elem"},
 		{Name: "arr-no-checkrows", File: "proto/col_arr.go", Old: "\tif err := checkRows(size); err != nil {\n\t\treturn errors.Wrap(err, \"array size\")\n\t}\n", New: "", Rule: "C06.rows", Construct: "ColArr"},
 		{Name: "lc-no-key-range", File: "proto/col_low_cardinality.go", Old: "if int64(idx) >= indexRows || idx < 0 {", New: "if idx < 0 {", Rule: "C06.index", Construct: "ColLowCardinality"},
 		{Name: "blockinfo-continue-on-unknown", File: "proto/block.go", Old: "\t\tdefault:\n\t\t\treturn errors.Errorf(\"unknown field %d\", f)", New: "\t\tdefault:\n\t\t\tfor f > 1000 {\n\t\t\t}", Rule: "C06.loops", Construct: "BlockInfo"},
@@ -56,11 +66,13 @@ func init() {
 		{Name: "arr-offsets-unchecked", File: "proto/col_arr.go", Old: "\t\t\treturn errors.Errorf(\"offset [%d] (%d) is less than previous (%d)\", i, offset, prev)\n", New: "\t\t\t_ = i\n", Rule: "C06.index", Construct: "offsets/ColArr"},
 	}
 	mutants["C07"] = []Mutant{
+		{Name: "header-loop-over-target", File: "proto/results.go", Nth: 2, Old: "\tfor i := 0; i < b.Columns; i++ {\n\t\tcolumnName, err := r.Str()", New: "\tfor i := range s {\n\t\tcolumnName, err := r.Str()", Rule: "C07.colcount", Construct: "DecodeResult"},
 		{Name: "str-break-on-short-read", File: "proto/col_str.go", Old: "\t\tif err := r.ReadFull(c.Buf[p.Start:p.End]); err != nil {\n\t\t\treturn errors.Wrapf(err, \"row %d: read full\", i)\n\t\t}", New: "\t\tif err := r.ReadFull(c.Buf[p.Start:p.End]); err != nil {\n\t\t\tbreak\n\t\t}", Rule: "C07.errors", Construct: "ColStr"},
 		{Name: "lc-keys-error-ignored", File: "proto/col_low_cardinality.go", Old: "\t\tif err := c.keys8.DecodeColumn(r, rows); err != nil {\n\t\t\treturn errors.Wrap(err, \"keys\")\n\t\t}", New: "\t\t_ = c.keys8.DecodeColumn(r, rows)", Rule: "C07.errors", Construct: "ColLowCardinality"},
 		{Name: "blockinfo-eof-is-ok", File: "proto/block.go", Old: "\t\t\treturn errors.Wrap(err, \"field id\")", New: "\t\t\tif f == 0 {\n\t\t\t\treturn nil\n\t\t\t}\n\t\t\treturn errors.Wrap(err, \"field id\")", Rule: "C07.errors", Construct: "BlockInfo"},
 	}
 	mutants["C08"] = []Mutant{
+		{Name: "timeout-nonzero", File: "client.go", Old: "\tif timeout > 0 {\n\t\tdeadline = time.Now().Add(timeout)", New: "\tif timeout != 0 {\n\t\tdeadline = time.Now().Add(timeout)", Rule: "C08.deadline", Construct: "positive"},
 		{Name: "readfull-single-read", File: "proto/reader.go", Old: "\tif _, err := io.ReadFull(r, buf); err != nil {", New: "\tif _, err := r.Read(buf); err != nil {", Rule: "C08.readfull", Construct: "ReadFull"},
 		{Name: "retry-every-error", File: "query.go", Old: "if errors.As(err, &opErr) && opErr.Timeout() {", New: "if errors.As(err, &opErr) {", Rule: "C08.retry", Construct: "packet"},
 		{Name: "two-reads-in-packet", File: "client.go", Old: "\tn, err := c.reader.UVarInt()\n\tif err != nil {\n\t\treturn 0, errors.Wrap(err, \"uvarint\")\n\t}\n", New: "\tn, err := c.reader.UVarInt()\n\tif err != nil {\n\t\treturn 0, errors.Wrap(err, \"uvarint\")\n\t}\n\tif n > 1000 {\n\t\tif n, err = c.reader.UVarInt(); err != nil {\n\t\t\treturn 0, err\n\t\t}\n\t}\n", Rule: "C08.retry", Construct: "one-read"},
@@ -74,12 +86,15 @@ func init() {
 		{Name: "callback-error-swallowed", File: "query.go", Old: "\t\t\treturn errors.Wrap(err, \"next input (server already persisted previous blocks)\")", New: "\t\t\tbreak", Rule: "C09.callback", Construct: ""},
 	}
 	mutants["C10"] = []Mutant{
+		{Name: "second-addendum-after-wait", File: "handshake.go", Old: "\t\treturn errors.Wrap(err, \"failed\")\n\t}\n\n\treturn nil\n}", New: "\t\treturn errors.Wrap(err, \"failed\")\n\t}\n\tif proto.FeatureAddendum.In(c.protocolVersion) {\n\t\tc.encodeAddendum()\n\t\tif err := c.flush(ctx); err != nil {\n\t\t\treturn err\n\t\t}\n\t}\n\n\treturn nil\n}", Rule: "C10.handshake", Construct: "covered"},
+		{Name: "addendum-after-wait", File: "handshake.go", Old: "\t\tif proto.FeatureAddendum.In(c.protocolVersion) {\n\t\t\tc.lg.Debug(\"Writing addendum\")\n\t\t\tc.encodeAddendum()\n\t\t\tif err := c.flush(wgCtx); err != nil {\n\t\t\t\treturn errors.Wrap(err, \"flush\")\n\t\t\t}\n\t\t}\n\n\t\treturn nil\n\t})", New: "\t\treturn nil\n\t})\n\tdefer func() {\n\t\tif proto.FeatureAddendum.In(c.protocolVersion) {\n\t\t\tc.encodeAddendum()\n\t\t\t_ = c.flush(ctx)\n\t\t}\n\t}()", Rule: "C10.handshake", Construct: "covered"},
 		{Name: "cancel-buffer-nonempty", File: "query.go", Old: "Buf: make([]byte, 0, 1),", New: "Buf: make([]byte, 1),", Rule: "C10.packet", Construct: "buffer-literal"},
 		{Name: "colinfo-wait-without-ctx", File: "query.go", Old: "\t\t\tselect {\n\t\t\tcase <-ctx.Done():\n\t\t\t\treturn ctx.Err()\n\t\t\tcase v := <-colInfo:\n\t\t\t\tinfo = v\n\t\t\t}", New: "\t\t\tinfo = <-colInfo", Rule: "C10.leak", Construct: ""},
 		{Name: "cancel-error-without-ctx", File: "query.go", Old: "err := multierr.Append(ctx.Err(), c.cancelQuery())", New: "err := multierr.Append(nil, c.cancelQuery())", Rule: "C10.error", Construct: ""},
 		{Name: "loop-does-not-retest-ctx", File: "query.go", Old: "\t\t\tif ctx.Err() != nil {\n\t\t\t\treturn ctx.Err()\n\t\t\t}\n\t\t\tcode, err := c.packet(ctx)", New: "\t\t\tcode, err := c.packet(ctx)", Rule: "C10.leak", Construct: "packet"},
 	}
 	mutants["C11"] = []Mutant{
+		{Name: "ping-bypasses-release", File: "chpool/pool.go", Old: "\tc, err := p.Acquire(ctx)\n\tif err != nil {\n\t\treturn err\n\t}\n\tdefer c.Release()\n\n\treturn c.Ping(ctx)", New: "\tres, err := p.pool.Acquire(ctx)\n\tif err != nil {\n\t\treturn err\n\t}\n\tdefer res.Release()\n\n\treturn res.Value().client.Ping(ctx)", Rule: "C11.bypass", Construct: "Ping"},
 		{Name: "slab-recycled", File: "chpool/conn.go", Old: "cr.clients = make([]Client, 128)", New: "cr.clients = cr.clients[:cap(cr.clients)]", Rule: "C11.slab", Construct: ""},
 		{Name: "release-closed-client", File: "chpool/client.go", Old: "if client.IsClosed() || time.Since(", New: "if !client.IsClosed() || time.Since(", Rule: "C11.release", Construct: "Release"},
 		{Name: "idle-branch-releases", File: "chpool/pool.go", Old: "\t\t} else if res.IdleDuration() > p.options.MaxConnIdleTime {\n\t\t\tres.Destroy()", New: "\t\t} else if res.IdleDuration() > p.options.MaxConnIdleTime {\n\t\t\tres.ReleaseUnused()", Rule: "C11.health", Construct: ""},
@@ -87,6 +102,7 @@ func init() {
 		{Name: "handle-keeps-res", File: "chpool/client.go", Old: "\tres := c.res\n\tc.res = nil\n", New: "\tres := c.res\n", Rule: "C11.handle", Construct: "Release"},
 	}
 	mutants["C12"] = []Mutant{
+		{Name: "dial-writes-callers-dialer", File: "client.go", Old: "\t\t\tnetDialer = d\n\t\t}\n", New: "\t\t\tnetDialer = d\n\t\t}\n\t\tif netDialer.Timeout == 0 {\n\t\t\tnetDialer.Timeout = opt.DialTimeout\n\t\t}\n", Rule: "C12.borrowed", Construct: "ch.Dial"},
 		{Name: "global-lazy-decoder", File: "compress/reader.go", Old: "\t\t\tr.zstd = zstdReader\n", New: "\t\t\tr.zstd = zstdReader\n\t\t\tmethodTable[None] = encodedNone\n", Rule: "C12.globals", Construct: ""},
 		{Name: "close-logs", File: "client.go", Old: "\tc.closed = true\n\tif err := c.conn.Close(); err != nil {", New: "\tc.closed = true\n\tc.lg.Debug(\"closing\")\n\tif err := c.conn.Close(); err != nil {", Rule: "C12.owner", Construct: "foreign/Close"},
 		{Name: "isclosed-without-lock", File: "client.go", Old: "func (c *Client) IsClosed() bool {\n\tc.mux.Lock()\n\tdefer c.mux.Unlock()\n", New: "func (c *Client) IsClosed() bool {\n", Rule: "C12.owner", Construct: "IsClosed/closed"},
@@ -94,6 +110,7 @@ func init() {
 		{Name: "metrics-without-lock", File: "query_metrics.go", Old: "\tv.mux.Lock()\n\tdefer v.mux.Unlock()\n", New: "", Rule: "C12.ctxvalue", Construct: "sharedQueryMetrics"},
 	}
 	mutants["C13"] = []Mutant{
+		{Name: "handshake-drops-error-on-ctx-done", File: "handshake.go", Old: "return errors.Wrap(multierr.Append(err, ctxErr), \"parent context done\")", New: "_ = multierr.Append(err, ctxErr)\n\t\t\treturn errors.Wrap(ctxErr, \"parent context done\")", Rule: "C13.fail", Construct: "carries"},
 		{Name: "dial-timeout-bounds-handshake", File: "client.go", Old: "\tconn, err := opt.Dialer.DialContext(ctx, \"tcp\", opt.Address)", New: "\tctx, cancelDial := context.WithTimeout(ctx, opt.DialTimeout)\n\tdefer cancelDial()\n\tconn, err := opt.Dialer.DialContext(ctx, \"tcp\", opt.Address)", Rule: "C13.ctx", Construct: "Dial"},
 		{Name: "downgrade-direction", File: "handshake.go", Old: "if c.protocolVersion > c.server.Revision {", New: "if c.protocolVersion < c.server.Revision {", Rule: "C13.min", Construct: "store-protocolVersion"},
 		{Name: "hello-decoded-with-server-revision", File: "client.go", Old: "\treturn v.DecodeAware(c.reader, c.protocolVersion)", New: "\treturn v.DecodeAware(c.reader, c.server.Revision)", Rule: "C13.version", Construct: "decode"},
@@ -101,12 +118,14 @@ func init() {
 		{Name: "timeout-before-handshake", File: "client.go", Old: "\t\tquotaKey: opt.QuotaKey,\n", New: "\t\tquotaKey: opt.QuotaKey,\n\t\treadTimeout: opt.ReadTimeout,\n", Rule: "C13.timeout", Construct: "handshake"},
 	}
 	mutants["C14"] = []Mutant{
+		{Name: "map-write-guard-on-keys", File: "proto/col_map.go", Old: "func (c ColMap[K, V]) WriteColumn(w *Writer) {\n\tif c.Rows() == 0 {", New: "func (c ColMap[K, V]) WriteColumn(w *Writer) {\n\tif c.Keys.Rows() == 0 {", Rule: "C14.guard", Construct: "ColMap"},
 		{Name: "append-before-cut", File: "proto/writer.go", Old: "\tw.cutBuffer()\n\tw.vec = append(w.vec, data)", New: "\tw.vec = append(w.vec, data)\n\tw.cutBuffer()", Rule: "C14.cutfirst", Construct: "ChainWrite"},
 		{Name: "offset-not-advanced", File: "proto/writer.go", Old: "\tw.bufOffset = newOffset\n", New: "", Rule: "C14.cut", Construct: "cutBuffer"},
 		{Name: "reset-forgets-offset", File: "proto/writer.go", Old: "func (w *Writer) reset() {\n\tw.bufOffset = 0\n", New: "func (w *Writer) reset() {\n", Rule: "C14.reset", Construct: "reset"},
 		{Name: "flush-error-skips-reset", File: "proto/writer.go", Old: "\tn, err = w.vec.WriteTo(w.conn)\n\tw.reset()", New: "\tn, err = w.vec.WriteTo(w.conn)\n\tif err != nil {\n\t\treturn n, err\n\t}\n\tw.reset()", Rule: "C14.flush", Construct: "Flush"},
 	}
 	mutants["C15"] = []Mutant{
+		{Name: "date32-safe-uint16", File: "proto/col_date32_safe_gen.go", Old: "Date32(binary.LittleEndian.Uint32(data[i:i+size])),", New: "Date32(binary.LittleEndian.Uint16(data[i:i+size])),", Rule: "C15.endian", Construct: "ColDate32"},
 		{Name: "readraw-bypasses-selection", File: "proto/reader.go", Old: "\tif err := r.readFull(n); err != nil {\n\t\treturn nil, errors.Wrap(err, \"read full\")\n\t}\n", New: "\tr.b.Ensure(n)\n\tif _, err := io.ReadFull(r.raw, r.b.Buf); err != nil {\n\t\treturn nil, errors.Wrap(err, \"read full\")\n\t}\n", Rule: "C15.source", Construct: "ReadRaw"},
 		{Name: "safe-uint32-size", File: "proto/col_uint32_safe_gen.go", Old: "\tconst size = 32 / 8\n\tdata, err := r.ReadRaw(rows * size)", New: "\tconst size = 16 / 8\n\tdata, err := r.ReadRaw(rows * size)", Rule: "C15.width", Construct: "ColUInt32"},
 		{Name: "safe-big-endian", File: "proto/col_uint16_safe_gen.go", Old: "\t\t\tbinary.LittleEndian.Uint16(data[i:i+size]),", New: "\t\t\tbinary.BigEndian.Uint16(data[i:i+size]),", Rule: "C15.endian", Construct: "ColUInt16"},
@@ -114,12 +133,14 @@ func init() {
 		{Name: "safe-bool-no-validation", File: "proto/col_bool_safe.go", Old: "\t\tdefault:\n\t\t\treturn errors.Errorf(\"[%d]: bad value %d for Bool\", i, data[i])", New: "\t\tdefault:\n\t\t\tv[i] = true", Rule: "C15.shape", Construct: "ColBool.DecodeColumn"},
 	}
 	mutants["C16"] = []Mutant{
+		{Name: "enum-appendarr-adopts", File: "proto/col_enum.go", Old: "func (e *ColEnum) AppendArr(vs []string) {\n", New: "func (e *ColEnum) AppendArr(vs []string) {\n\tif len(e.Values) == 0 {\n\t\te.Values = vs\n\t\treturn\n\t}\n", Rule: "C16.alias", Construct: "ColEnum.AppendArr"},
 		{Name: "lc-reset-forgets-keys8", File: "proto/col_low_cardinality.go", Old: "\tc.keys8 = c.keys8[:0]\n", New: "", Rule: "C16.reset", Construct: "ColLowCardinality"},
 		{Name: "str-reset-forgets-pos", File: "proto/col_str.go", Old: "\tc.Pos = c.Pos[:0]\n}", New: "}", Rule: "C16.reset", Construct: "ColStr"},
 		{Name: "decoderesult-no-reset", File: "proto/results.go", Old: "\t\tt.Data.Reset()\n\t\tif b.Rows == 0 {", New: "\t\tif b.Rows == 0 {", Rule: "C16.before", Construct: "DecodeResult"},
 		{Name: "lc-map-kept", File: "proto/col_low_cardinality.go", Old: "\t} else {\n\t\tclear(c.kv)\n\t}\n", New: "\t}\n", Rule: "C16.dict", Construct: "Prepare"},
 	}
 	mutants["C17"] = []Mutant{
+		{Name: "setting-flags-iota", File: "proto/query.go", Old: "\tsettingFlagImportant = 0x01\n\tsettingFlagCustom    = 0x02\n\tsettingFlagObsolete  = 0x04", New: "\tsettingFlagImportant = iota + 1\n\tsettingFlagCustom\n\tsettingFlagObsolete", Rule: "C17.flags", Construct: "flags/Setting"},
 		{Name: "progress-gate-decoder-only", File: "proto/progress.go", Old: "\tif FeatureClientWriteInfo.In(version) {\n\t\t{\n\t\t\tv, err := r.UVarInt()", New: "\tif FeatureServerLogs.In(version) {\n\t\t{\n\t\t\tv, err := r.UVarInt()", Rule: "C17.shape", Construct: "Progress"},
 		{Name: "serverhello-fields-swapped", File: "proto/server_hello.go", Old: "\tif FeatureTimezone.In(v) {\n\t\tb.PutString(s.Timezone)\n\t}\n\tif FeatureDisplayName.In(v) {\n\t\tb.PutString(s.DisplayName)\n\t}", New: "\tif FeatureDisplayName.In(v) {\n\t\tb.PutString(s.DisplayName)\n\t}\n\tif FeatureTimezone.In(v) {\n\t\tb.PutString(s.Timezone)\n\t}", Rule: "C17.fieldorder", Construct: "ServerHello"},
 		{Name: "bucket-written-as-int64", File: "proto/block.go", Old: "b.PutInt32(int32(i.BucketNum))", New: "b.PutInt64(int64(i.BucketNum))", Rule: "C17.shape", Construct: "BlockInfo"},
@@ -127,6 +148,8 @@ func init() {
 		{Name: "uint32-big-endian", File: "proto/reader.go", Old: "return binary.LittleEndian.Uint32(r.b.Buf), nil", New: "return binary.BigEndian.Uint32(r.b.Buf), nil", Rule: "C17.prims", Construct: "UInt32"},
 	}
 	mutants["C18"] = []Mutant{
+		{Name: "end-ignores-rows", File: "proto/block.go", Old: "\treturn b.Columns == 0 && b.Rows == 0", New: "\treturn b.Columns == 0", Rule: "C18.endmarker", Construct: "Block.End"},
+		{Name: "enum8-int16-both-sides", File: "proto/column.go", Old: "(cBase == ColumnTypeEnum16 && b == ColumnTypeInt16) ||\n\t\t(bBase == ColumnTypeEnum8 && c == ColumnTypeInt8) ||\n\t\t(bBase == ColumnTypeEnum16 && c == ColumnTypeInt16) {", New: "(cBase == ColumnTypeEnum8 && b == ColumnTypeInt16) ||\n\t\t(bBase == ColumnTypeEnum8 && c == ColumnTypeInt8) ||\n\t\t(bBase == ColumnTypeEnum8 && c == ColumnTypeInt16) {", Rule: "C18.symm", Construct: "enumwidth"},
 		{Name: "no-name-check", File: "proto/results.go", Old: "\t\tif t.Name != columnName {\n\t\t\treturn errors.Errorf(\"[%d]: unexpected column %q (%q expected)\", i, columnName, t.Name)\n\t\t}\n", New: "", Rule: "C18.order", Construct: ""},
 		{Name: "no-conflicts-check", File: "proto/results.go", Old: "\t\tif gotType.Conflicts(hasType) {", New: "\t\tif false && gotType.Conflicts(hasType) {", Rule: "C18.order", Construct: ""},
 		{Name: "flag-ignored", File: "proto/results.go", Old: "\t\t\tif customSerialization {\n\t\t\t\t// Not implemented.\n\t\t\t\treturn errors.Wrapf(err, \"column [%d] has custom serialization (not supported)\", i)\n\t\t\t}\n\t\t}\n\t\tif noTarget {", New: "\t\t\t_ = customSerialization\n\t\t}\n\t\tif noTarget {", Rule: "C18.custom", Construct: "DecodeResult"},
@@ -138,6 +161,8 @@ func init() {
 		{Name: "decimal64-boundary", File: "proto/col_auto.go", Old: "case prec >= 10 && prec < 19:", New: "case prec >= 10 && prec < 20:", Rule: "C19.decimal", Construct: ""},
 	}
 	mutants["C20"] = []Mutant{
+		{Name: "scale-starts-at-ten", File: "proto/datetime64.go", Old: "\td := int64(1)\n\tfor i := PrecisionNano; i > p; i-- {", New: "\td := int64(10)\n\tfor i := PrecisionNano; i > p; i-- {", Rule: "C20.scale", Construct: "Scale"},
+		{Name: "ipv6-unmap", File: "proto/ipv6.go", Old: "\treturn netip.AddrFrom16(v)\n", New: "\treturn netip.AddrFrom16(v).Unmap()\n", Rule: "C20.ipinverse", Construct: "proto.(IPv6).ToIP"},
 		{Name: "int256-middle-word-not-extended", File: "proto/int256.go", Old: "\t\tlo.High = math.MaxUint64\n", New: "", Rule: "C20.signext", Construct: "proto.Int256FromInt"},
 		{Name: "int128-from-uint64-signed", File: "proto/int128.go", Old: "func Int128FromUInt64(v uint64) Int128 {\n\treturn Int128(UInt128FromUInt64(v))", New: "func Int128FromUInt64(v uint64) Int128 {\n\treturn Int128FromInt(int(v))", Rule: "C20.widen", Construct: "Int128FromUInt64"},
 		{Name: "week-six-days", File: "proto/col_interval.go", Old: "int(i.Value)*7", New: "int(i.Value)*6", Rule: "C20.interval", Construct: "IntervalWeek"},
